@@ -309,6 +309,7 @@ class Path(object):
         self.arith_forks = 0
         self.effects: List[Tuple] = []
         self.termeq: Dict[tuple, bool] = {}
+        self.in_spec = False  # set while the specification is being evaluated
 
     def choose(self, tag: str, options: Sequence[object] = (True, False)):
         if self.pos < len(self.oracle):
@@ -316,7 +317,7 @@ class Path(object):
             self.pos += 1
         else:
             raise NeedFork((tag, list(options)))
-        self.choices.append((tag, v))
+        self.choices.append((("spec " + tag) if self.in_spec else tag, v))
         return v
 
 
@@ -1960,6 +1961,7 @@ def lib_call(fr: Frame, dotted: str, args, kwargs, node):
     if dotted == "builtins.type" and len(args) == 1:
         v = args[0]
         if isinstance(v, AObj):
+            I.path.effects.append(("getattr", v.name, "type()"))
             return v.cls
         if isinstance(v, ARec):
             return RecType(v.circular)
@@ -2052,6 +2054,7 @@ def lib_isinstance(fr: Frame, v, t, node):
     elif isinstance(v, ASeq):
         tags = {v.kind}
     elif isinstance(v, AObj):
+        I.path.effects.append(("getattr", v.name, "isinstance()"))
         for x in ts:
             if isinstance(x, ClassInfo) and I.p.is_subclass(v.cls, x):
                 return True
